@@ -346,6 +346,24 @@ def isinstance_str (v : V) : V :=
   | .str _ => .bool true
   | _ => .bool false
 
+/-! ### object lists (heap mode)
+
+  `for i, et in enumerate(self.<list>)`: the fields of the elements live in the environment under the keys `ikey`; the
+  encoding is chosen so that keys of different elements differ by length and no element key equals an attribute path
+  (an attribute path does not start with `#`). -/
+
+def stars (i : Nat) : String := String.ofList (List.replicate i '*')
+
+/-- the environment key of field `f` of element `i` of the object list at `path` -/
+def ikey (path : String) (i : Nat) (f : String) : String := "#" ++ stars i ++ "#" ++ path ++ f
+
+/-- the `i`-th loop-carried local -/
+def nth (locs : List V) (i : Nat) : V := locs.getD i (V.exc "UnboundLocalError")
+
+def natOf : V → Nat
+  | .int i => i.toNat
+  | _ => 0
+
 /-! ### heap mode
 
   For methods that read an attribute after writing it (or after calling something that may write it) the environment is
@@ -404,6 +422,23 @@ def oracle (ext : Ext) (name : String) (args : List V) (env : Env) : V :=
   match firstExc args with
   | some n => .exc n
   | Option.none => (ext name args env).1
+
+/-- what a loop body falls through to, and what `break` jumps to: the loop-carried locals, the environment, the effects -/
+abbrev K := List V → Env → List Eff → Res
+
+/-- `for i in range(n)`, continuation-passing: `body idx locals env effs next brk`; a `return` inside the body simply does not
+    call either continuation -/
+def forGo (body : Nat → List V → Env → List Eff → K → K → Res) (brk : K) : Nat → Nat → List V → Env → List Eff → Res
+  | 0, _, locs, env, effs => brk locs env effs
+  | r + 1, idx, locs, env, effs =>
+    body idx locs env effs (fun locs env effs => forGo body brk r (idx + 1) locs env effs) brk
+
+/-- `for i, x in enumerate(self.<list>)`: `n` is `len(self.<list>)` when the loop starts -/
+def forRange (n : V) (locs : List V) (env : Env) (effs : List Eff)
+    (body : Nat → List V → Env → List Eff → K → K → Res) (k : K) : Res :=
+  match n with
+  | .exc e => .raised e env effs
+  | n => forGo body k (natOf n) 0 locs env effs
 
 def bind (r : Res) (k : V → Env → List Eff → Res) : Res :=
   match r with
